@@ -132,6 +132,33 @@ func LimitPairs() (out []Variant) {
 	return out
 }
 
+// acePrefixes: only the lower-case one is an ACE prefix for idna.
+var acePrefixes = []string{"xn--", "xn--", "XN--", "Xn--"}
+
+// ACEWraps returns two variants of s in which one label l is replaced by
+// "xn--" + l + "-" and by "xn--xn--" + l + "--" (sometimes with an upper-case
+// outer or inner prefix, or three levels deep).
+func ACEWraps(s string, rng *rand.Rand) []string {
+	labels := strings.Split(s, ".")
+	i := rng.IntN(len(labels))
+	if rng.IntN(3) == 0 {
+		i = len(labels) - 1 // the TLD
+	}
+	wrap := func(l string, depth int) string {
+		for d := 0; d < depth; d++ {
+			l = acePrefixes[rng.IntN(len(acePrefixes))] + l + "-"
+		}
+		return l
+	}
+	out := make([]string, 0, 2)
+	for _, depth := range []int{1, 2 + rng.IntN(2)} {
+		c := append([]string(nil), labels...)
+		c[i] = wrap(c[i], depth)
+		out = append(out, strings.Join(c, "."))
+	}
+	return out
+}
+
 // Entry is one remembered input of a replay.
 type Entry struct {
 	S    string
@@ -157,6 +184,8 @@ func (r *Reservoir) Add(e Entry, rng *rand.Rand) {
 
 // HistoryCap is the total number of inputs re-validated in the sequential
 // second pass.
+func tierQuick() bool { return vh.Tier() == "quick" }
+
 func HistoryCap() int {
 	if vh.Tier() == "quick" {
 		return 40000
